@@ -17,12 +17,12 @@ import (
 
 var mixC15 = Mix{Set: 24, Delete: 9, Get: 3, GetItem: 5, Exist: 2, MinMax: 4, Totals: 1, Visit: 6, Iter: 2, Len: 1,
 	Flush: 7, Evict: 7, Reopen: 3, Snapshot: 4, SnapRead: 6, SnapClose: 3, SnapOfSnap: 1,
-	SetCollNew: 2, SetCollExisting: 2, RemoveColl: 2, PinVisit: 1, ResumeVisit: 2}
+	SetCollNew: 2, SetCollExisting: 2, RemoveColl: 2, PinVisit: 1, ResumeVisit: 2, VisitEvict: 4}
 
 func init() {
 	register(&Prop{
 		ID: "C15", Level: "exploration",
-		Rule: "case = random history (mutations incl. overwrites and deletes, lookups, all visit kinds and iterators, Len, EvictSomeItems, Flush, re-open, snapshots, SetCollection/RemoveCollection, suspended readers) over 1-3 collections with ItemAlloc/ItemAddRef/ItemDecRef installed and wired to a mutex-protected monitor that follows the documented protocol (allocated items start at 1; the application drops its own reference after SetItem and releases what lookups return). Checked online: no DecRef takes a count below zero; every item returned by GetItem/MinItem/MaxItem or passed to a visitor has a positive count; after every step every item cached in a node reachable from an open handle (hook walk) has a positive count. Concurrent cases: 2-4 readers (lookups, visits, Min/Max in both value modes) next to a mutator that only evicts, on a cold file under the deterministic yield-point scheduler (switches at every file call, so two readers load the same uncached item at once and one loses the cache CAS); the store is then closed and every count must be zero. End of life: the snapshots and the store are closed in a seed-chosen order (stores abandoned by a re-open are closed too) and every count must be zero. Non-trivial = the history evicted or re-read items, deleted or overwrote some, and closed at least one snapshot or re-opened; distinct = distinct op-trace hash.",
+		Rule: "case = random history (mutations incl. overwrites and deletes, lookups, all visit kinds and iterators, Len, EvictSomeItems, Flush, re-open, snapshots, SetCollection/RemoveCollection, suspended readers, visits whose callback evicts) over 1-3 collections with ItemAlloc/ItemAddRef/ItemDecRef installed and wired to a mutex-protected monitor that follows the documented protocol (allocated items start at 1; the application drops its own reference after SetItem and releases what lookups return). Checked online: no DecRef takes a count below zero; every item returned by GetItem/MinItem/MaxItem or passed to a visitor has a positive count; after every step every item cached in a node reachable from an open handle (hook walk) has a positive count. Concurrent cases: 2-4 readers (lookups, visits, Min/Max in both value modes) next to a mutator that only evicts, on a cold file under the deterministic yield-point scheduler (switches at every file call, so two readers load the same uncached item at once and one loses the cache CAS); the store is then closed and every count must be zero. End of life: the snapshots and the store are closed in a seed-chosen order (stores abandoned by a re-open are closed too) and every count must be zero. Non-trivial = the history evicted or re-read items, deleted or overwrote some, and closed at least one snapshot or re-opened; distinct = distinct op-trace hash.",
 		Assumptions: []string{
 			"the application follows the documented protocol: it releases each item returned by GetItem/MinItem/MaxItem exactly once and does not retain visitor items",
 			"items created by Collection.Set() (not through ItemAlloc) start at count 0 from the monitor's point of view",
